@@ -21,6 +21,8 @@ def gen(ty, rng: random.Random, depth=0):
     if isinstance(ty, type) and issubclass(ty, zt.Struct):
         st = ty()
         for f in ty.fields:                      # conditional fields exist only when their condition holds
+            if getattr(f, "optional", False) and rng.random() < 0.4:
+                break                            # optional (trailing) fields may be absent from a value: "any value tuple" includes those
             if f.requires is None or f.requires(st):
                 setattr(st, f.name, gen(f.type, rng, depth + 1))
         return st
